@@ -27,10 +27,10 @@ fn setup(ctx: &mut Ctx) {
 
 fn strata(t: Tier) -> Vec<Stratum> {
     vec![
-        st("walker-corpus", scale(t, 24_000, 2_400_000, 0)),
+        st("walker-corpus", scale(t, 288_000, 2_880_000, 0)),
         ex("short-buffer-sweep", scale(t, 4 * 71, 4 * 71, 4 * 71)),
-        st("u32-boundary-links", scale(t, 6_000, 300_000, 400)),
-        st("walker-corpus-small", scale(t, 2_000, 100_000, 60)),
+        st("u32-boundary-links", scale(t, 72_000, 720_000, 400)),
+        st("walker-corpus-small", scale(t, 24_000, 240_000, 60)),
     ]
 }
 
